@@ -643,6 +643,35 @@ pub fn parser_inputs(tier: &str, rng: &mut Rng, f: &mut dyn FnMut(&[u8], u8)) {
                         }
                     }
                 }
+                if e.ty == 7 {
+                    // the same list with a longer TLF whose declared arity is congruent to the real one modulo 16 / 256 / 4096 / 65536
+                    let arity = e.len;
+                    for (nbytes, add) in [(2usize, 16u64), (3, 256), (3, 512), (3, 0xf00), (4, 4096), (5, 65536)] {
+                        let v = arity + add;
+                        if v >= 1u64 << (4 * nbytes) {
+                            continue;
+                        }
+                        let mut t = vec![];
+                        for k in 0..nbytes {
+                            let nib = ((v >> (4 * (nbytes - 1 - k))) & 15) as u8;
+                            t.push((if k + 1 < nbytes { 0x80 } else { 0 }) | (if k == 0 { 0x70 } else { 0 }) | nib);
+                        }
+                        let mut q = p.clone();
+                        q.splice(e.pos..e.pos + e.tlf_len, t);
+                        // the walker cannot follow the aliased arity, so the checksum of the enclosing message is
+                        // recomputed from the spans of the original file, shifted by the growth of the TLF
+                        let delta = nbytes as isize - e.tlf_len as isize;
+                        if let Some((i0, c, _)) = message_spans(p).into_iter().find(|(i0, c, _)| *i0 <= e.pos && e.pos < *c) {
+                            let c2 = (c as isize + delta) as usize;
+                            if c2 + 2 < q.len() && q[c2] == 0x63 {
+                                let d = crc16(&q[i0..c2]);
+                                q[c2 + 1] = d as u8;
+                                q[c2 + 2] = (d >> 8) as u8;
+                            }
+                        }
+                        f(&q, 1);
+                    }
+                }
                 // replace by an optional marker / by an empty octet string
                 let mut q = p.clone();
                 q.splice(e.pos..e.end.min(p.len()), [0x01]);
